@@ -30,6 +30,7 @@ THEOREMS = [
      "PathSan.percent_decode (pct_encode mask d) = d"),
     ("ext_lookup_spelling_independent", None),
     ("allow_ips_never_stored", None),
+    ("guarded_answer_is_404", None),
     ("private_spelling_v0_refuted", None),
     ("cache_directive_v0_refuted", None),
     ("violates_contradicts_confined", "forall fs secret ops obs, violates fs secret ops obs -> ~ Forall2 (reply_ok fs secret) ops obs"),
